@@ -568,6 +568,22 @@ func checkEvalNeverNilSignal(p *Prog, l *Ledger) {
 					return all && any
 				}
 			}
+		case *ssa.Call:
+			// `return nil, i.executeStatements(…)`: the signal is the single result of a helper
+			if g := x.Call.StaticCallee(); g != nil && g != ev && p.InModule(g) && g.Blocks != nil && !helperSeen[g] {
+				helperSeen[g] = true
+				defer delete(helperSeen, g)
+				all, any := true, false
+				instrsOf(g, func(in ssa.Instruction) {
+					if ret, ok := in.(*ssa.Return); ok && len(ret.Results) == 1 {
+						any = true
+						if !check(ret.Results[0], map[ssa.Value]bool{}) {
+							all = false
+						}
+					}
+				})
+				return all && any
+			}
 		case *ssa.Phi:
 			for _, e := range x.Edges {
 				if !check(e, seen) {
@@ -584,7 +600,15 @@ func checkEvalNeverNilSignal(p *Prog, l *Ledger) {
 			return
 		}
 		n++
-		if !check(ret.Results[1], map[ssa.Value]bool{}) {
+		guardedNonNil := false
+		for _, g := range GuardsAt(in.Block()) {
+			if b, ok := g.Cond.(*ssa.BinOp); ok && (b.X == ret.Results[1] && isNilConst(b.Y) || b.Y == ret.Results[1] && isNilConst(b.X)) {
+				if (b.Op == token.NEQ && g.Truth) || (b.Op == token.EQL && !g.Truth) {
+					guardedNonNil = true // `if stop != nil { return nil, stop }`
+				}
+			}
+		}
+		if !guardedNonNil && !check(ret.Results[1], map[ssa.Value]bool{}) {
 			bad++
 			l.Violate("C07/P6-nil", fmt.Sprintf("%s#return-signal(%s)", p.FuncKey(ev), describe(ret.Results[1])), p.InstrPos(in), "eval may return a nil control-flow signal here; every caller dereferences signal.Type")
 		}
@@ -1056,6 +1080,22 @@ func storedTypes(p *Prog, u *Universe, key string, seen map[string]bool) (map[st
 				}
 			}
 			return true
+		case *ssa.Extract:
+			if lk, ok := x.Tuple.(*ssa.Lookup); ok && x.Index == 0 {
+				return valueTypes(lk, depth+1)
+			}
+			return false
+		case *ssa.Lookup:
+			// an entry of a constant table of interface values: the types the table's initialiser puts in
+			if ld, ok := x.X.(*ssa.UnOp); ok {
+				if g, ok := ld.X.(*ssa.Global); ok && p.ConstMap(g) != nil {
+					for _, t := range constMapValueTypes[g] {
+						out[typeStr(t)] = t
+					}
+					return true
+				}
+			}
+			return false
 		case *ssa.UnOp, *ssa.Field:
 			ft, ok := fieldFlowTypes(p, u, val, seen)
 			if !ok {
